@@ -49,7 +49,7 @@ Small ==
   \cup {SExpr(Call1("contains", "a", LLit(v))) : v \in {Num(2), Null, Num(0)}}
   \cup {SExpr(Call1("push", "a", LGet("b", 5))), SExpr(Call1("push", "a", LGet("a", 5)))}   \* followed by a[2] = 7 / a[0] = 7
   \cup {SExpr(LGet("a", -1)), SExpr(LGet("a", -3)), SSet("a", 0, Num(7)), SSet("a", 2, Num(7)), SSet("b", -1, Num(7))}
-  \cup {SSet("b", 3, Num(7)), SSet("b", 1, Str("b")), SInc("b", 2)}     \* two padding nulls, then one of them written
+  \cup {SSet("b", 3, Num(7)), SSet("b", 1, Str("b"))}     \* two padding nulls, then one of them written
   \cup {SExpr(Call1("push", "a", Call1("push", "b", LLit(Num(2))))), SExpr(Call1("push", "b", Call0("pop", "a"))),
         SExpr(Call1("push", "a", Call0("popfirst", "a"))), SExpr(Call1("contains", "a", Call0("length", "b"))),
         SExpr(Call1("contains", "a", Call1("contains", "b", LLit(Num(2))))),
